@@ -586,3 +586,124 @@ func isErrorReturn(in ssa.Instruction) bool {
 	n, has := retErrNil(r)
 	return has && !n
 }
+
+// rangeElem: if v is the element variable of `for _, v := range S` (a load of &S[k] with k the canonical range index of a
+// loop bounded by len(S)), returns S.
+func rangeElem(v ssa.Value) (ssa.Value, bool) {
+	v = stripChange(v)
+	var ia *ssa.IndexAddr
+	switch x := v.(type) {
+	case *ssa.UnOp:
+		if x.Op != token.MUL {
+			return nil, false
+		}
+		ia, _ = x.X.(*ssa.IndexAddr)
+	case *ssa.Index:
+		return nil, false
+	}
+	if ia == nil {
+		return nil, false
+	}
+	k, ok := ia.Index.(*ssa.BinOp)
+	if !ok || k.Op != token.ADD {
+		return nil, false
+	}
+	ph, ok := k.X.(*ssa.Phi)
+	if !ok || ph.Comment != "rangeindex" {
+		return nil, false
+	}
+	if c, ok := constInt(k.Y); !ok || c != 1 {
+		return nil, false
+	}
+	// initial value -1 and loop condition k < len(S)
+	init := false
+	for _, e := range ph.Edges {
+		if c, ok := constInt(e); ok && c == -1 {
+			init = true
+		}
+	}
+	if !init {
+		return nil, false
+	}
+	i := ifOf(k.Block())
+	if i == nil {
+		return nil, false
+	}
+	cond, ok := i.Cond.(*ssa.BinOp)
+	if !ok || cond.Op != token.LSS || cond.X != ssa.Value(k) {
+		return nil, false
+	}
+	lc, ok := cond.Y.(*ssa.Call)
+	if !ok {
+		return nil, false
+	}
+	if b, ok := lc.Call.Value.(*ssa.Builtin); !ok || b.Name() != "len" || lc.Call.Args[0] != ia.X {
+		return nil, false
+	}
+	return ia.X, true
+}
+
+// onlyErrorReturnsFrom: every path starting at block b reaches a Return with a non-nil error (no other exit, no way
+// back into a loop: paths that reach any block in `stop` count as escaping).
+func onlyErrorReturnsFrom(b *ssa.BasicBlock) bool {
+	seen := map[*ssa.BasicBlock]bool{}
+	ok := true
+	var walk func(x *ssa.BasicBlock)
+	walk = func(x *ssa.BasicBlock) {
+		if seen[x] || !ok {
+			return
+		}
+		seen[x] = true
+		for _, in := range x.Instrs {
+			if r, isR := in.(*ssa.Return); isR {
+				if !isErrorReturn(r) {
+					ok = false
+				}
+				return
+			}
+			if _, isP := in.(*ssa.Panic); isP {
+				return
+			}
+		}
+		if len(x.Succs) == 0 {
+			ok = false
+		}
+		for _, s := range x.Succs {
+			if s.Dominates(x) { // back edge: leaves the error path
+				ok = false
+				return
+			}
+			walk(s)
+		}
+	}
+	walk(b)
+	return ok
+}
+
+// errEdgeReturns: the error value ev is tested against nil and its non-nil edge leads only to error returns.
+func errEdgeReturns(ev ssa.Value) bool {
+	for _, ref := range refs(ev) {
+		b, ok := ref.(*ssa.BinOp)
+		if !ok {
+			continue
+		}
+		ne, ok := isNilCompare(b, ev)
+		if !ok {
+			continue
+		}
+		for _, r2 := range refs(b) {
+			i, ok := r2.(*ssa.If)
+			if !ok {
+				continue
+			}
+			succ := 0
+			if !ne {
+				succ = 1
+			}
+			if onlyErrorReturnsFrom(i.Block().Succs[succ]) {
+				return true
+			}
+		}
+	}
+	return false
+}
